@@ -56,3 +56,10 @@ impl Iterator for Rng {
         Some(self.random())
     }
 }
+
+#[cfg(feature = "verif-hooks")]
+impl Rng {
+    pub(crate) fn verif_seed(&self) -> u64 {
+        self.seed
+    }
+}
